@@ -518,6 +518,12 @@ func (x *Exec) trCall(t *CCall, env *Env) Val {
 		return Val{T: bseqType, S: x.bseq(env.cur, arg(0))}
 	case "held":
 		return Val{T: tInt, S: x.heldTerm(env.cur, arg(0))}
+	case "heldAt":
+		x.heapBase(heldKey, heldSort)
+		return Val{T: tInt, S: sel(x.heapGet(env.cur, heldKey, heldSort), arg(0).S)}
+	case "nolocks":
+		x.heapBase(heldKey, heldSort)
+		return Val{T: tBool, S: fmt.Sprintf("(forall ((a Int)) (! (= (select %s a) 0) :pattern ((select %s a))))", x.heapGet(env.cur, heldKey, heldSort), x.heapGet(env.cur, heldKey, heldSort))}
 	}
 	if pd, ok := x.eng.cs.Preds[id.Name]; ok {
 		if len(pd.Params) != len(t.Args) {
